@@ -33,6 +33,7 @@ def kernSem (op : String) (a b : BSet) (args : List Int) : Option (Option BSet Ã
   | "iadd" => some (some (BSet.add a (arg 0)), some (b2i (!BSet.mem a (arg 0))))
   | "iremove" => some (some (BSet.remove a (arg 0)), some (b2i (BSet.mem a (arg 0))))
   | "toEfficientContainer" | "clone" => some (some a, none)
+  | "resetTo" => some (some b, none)       -- the receiver (a dirty scratch bitmap container) becomes a copy of the argument
   | "rank" => some (none, some (BSet.rankLt a (arg 0 + 1)))
   | "selectInt" => (BSet.select a (arg 0)).map fun v => (none, some (v : Int))
   | "contains" => some (none, some (b2i (BSet.mem a (arg 0))))
@@ -56,7 +57,7 @@ def kernSem (op : String) (a b : BSet) (args : List Int) : Option (Option BSet Ã
   | _ => none
 
 def inPlaceOps : List String :=
-  ["iand", "ior", "ixor", "iandNot", "lazyIOR", "iaddRange", "iremoveRange", "inot", "iaddReturnMinimized",
+  ["resetTo", "iand", "ior", "ixor", "iandNot", "lazyIOR", "iaddRange", "iremoveRange", "inot", "iaddReturnMinimized",
    "iremoveReturnMinimized", "iadd", "iremove"]
 
 def stepKern (st : St) (cmd : List String) (got : String) : Option (St Ã— Verdict) :=
